@@ -2,6 +2,14 @@
 """Regenerates MANIFEST.json from the table below (kept in one place so that it stays valid)."""
 import json, sys
 CHECKS = {
+ "C05": dict(
+   text="Ed25519 scalar arithmetic of the real code decided by SMT (linear integer carry equations): red512 on every 256-bit input and on every input below 2^320 (quick; full 512-bit in the thorough tier), isLessThanOrder equals integer comparison with L for every 32-byte string.",
+   note="Point arithmetic / group equation outside the technique; Ed448 scalars are checked under C12 (goldilocks).",
+   ref="§4 C05"),
+ "C06": dict(
+   text="X25519/X448 input handling of the real Shared/clamp code decided for every scalar and every peer value: clamping equals RFC 7748 decodeScalar, the ladder receives u mod 2^255 (resp. u) and the clamped scalar, and the flag is false exactly when the residue mod p is one of the small-order u-coordinates (real fp Modp carry chain + table compare), operands unchanged.",
+   note="The Montgomery ladder is replaced by a recorder/uninterpreted function: that the ladder computes scalar multiplication and yields zero exactly for small-order inputs is curve theory (assumed).",
+   ref="§4 C06"),
  "C02": dict(
    text="Signature-decoding strictness decided by SMT on the real ML-DSA/Dilithium unpackedSignature.Unpack of all six parameter sets: symbolic challenge bytes and appended bytes around a concrete valid body; accepted iff the length is exactly SignatureSize; truncations refused. (Hint-decoding canonicity is decided under C04.)",
    note="Covers the length/shape clause for the six ML-DSA/Dilithium packages so far; algebraic validity of honest signatures is outside the technique.",
